@@ -290,8 +290,27 @@ func setLat(pipe *kit.Pipe, c *c12Case) {
 
 // ---------------------------------------------------------------- mode A: Observer.Process + real runner + real post-processors
 
-func runObserver(t *testing.T, c *c12Case) {
+// withDistinctInstants runs a case; if two pipeline invocations returned at the same virtual instant
+// (their order would then be an accident of scheduling) the latencies are nudged deterministically
+// and the case is run again.
+func withDistinctInstants(t *testing.T, c *c12Case, run func(*testing.T, *c12Case) bool) {
+	for try := 0; try < 6; try++ {
+		if run(t, c) {
+			return
+		}
+		for i := range c.Steps {
+			for j := range c.Steps[i].Pls {
+				p := &c.Steps[i].Pls[j]
+				p.Lat += int64(1+try)*7919 + int64(p.Tag)*104729%1000003
+			}
+		}
+	}
+	t.Fatalf("C12: could not separate completion instants for family %s", c.Family)
+}
+
+func runObserver(t *testing.T, c *c12Case) bool {
 	c.Obs = nil
+	distinct := true
 	synctest.Test(t, func(t *testing.T) {
 		ctx := context.Background()
 		lg := log.New(io.Discard, "", 0)
@@ -372,7 +391,9 @@ func runObserver(t *testing.T, c *c12Case) {
 		if s.badSt > 0 {
 			t.Errorf("SetUpkeepState called with a state other than Ineligible")
 		}
+		distinct = rec.TimesDistinct()
 	})
+	return distinct
 }
 
 // ---------------------------------------------------------------- mode B: the exported flows, stepped by the virtual clock
@@ -416,8 +437,9 @@ func (passFilter) PreProcess(_ context.Context, ps []common.UpkeepPayload) ([]co
 	return ps, nil
 }
 
-func runFlows(t *testing.T, c *c12Case) {
+func runFlows(t *testing.T, c *c12Case) bool {
 	c.Obs = nil
+	distinct := true
 	synctest.Test(t, func(t *testing.T) {
 		ctx := context.Background()
 		lg := log.New(io.Discard, "", 0)
@@ -568,7 +590,9 @@ func runFlows(t *testing.T, c *c12Case) {
 		if s.badSt > 0 {
 			t.Errorf("SetUpkeepState called with a state other than Ineligible")
 		}
+		distinct = rec.TimesDistinct()
 	})
+	return distinct
 }
 
 // ---------------------------------------------------------------- mode C: op sequences against the real retry queue
